@@ -14,7 +14,7 @@ EXTENDS MultiLayer, Json
 CONSTANTS D,        \* program length
           Family,   \* operation alphabet
           KD,       \* deviations the judge may use (ids of known findings)
-          Layout,   \* "md" = memory + disk, "mmd" = memory + memory + disk, "mm" = two memory layers
+          Layout,   \* "md" = memory + disk, "mmd" = memory + memory + disk, "mm" = two memory layers, "mdd" = memory + two disk layers
           Cap0,     \* max_entries of the first layer
           KA, KB,   \* the two key names (Keys = {KA, KB}); the name is the tail of the cache-key string, so
                     \* "a.tmp" / "b.TMP" give disk-layer files with the extension the directory sweep skips
@@ -25,12 +25,14 @@ VARIABLE hist
 
 \* substituted for Kinds / Caps in the cfg (a cfg file cannot contain tuples)
 MCKinds == CASE Layout = "md" -> <<"mem", "disk">> [] Layout = "mmd" -> <<"mem", "mem", "disk">> [] Layout = "mm" -> <<"mem", "mem">>
+             [] Layout = "mdd" -> <<"mem", "disk", "disk">>
 MCCaps  == CASE Layout = "md" -> <<Cap0, 1000>> [] Layout = "mmd" -> <<Cap0, 2, 1000>> [] Layout = "mm" -> <<Cap0, 2>>
+             [] Layout = "mdd" -> <<Cap0, 1000, 1000>>
 
 MCBudgets  == [i \in 1..Len(MCKinds) |-> IF MCKinds[i] = "mem" THEN Budget ELSE 0]
 MCPolicies == [i \in 1..Len(MCKinds) |-> IF MCKinds[i] = "mem" THEN Policy ELSE "lru"]
 \* bytes of the named values as the driver concretises them (it logs its own table; this one steers the machine)
-MCSizes    == [v1 |-> 17, v2 |-> 17, e |-> 0, bad |-> 24]
+MCSizes    == [v1 |-> 17, v2 |-> 17, e |-> 0, bad |-> 24, big |-> 64]     \* "big" is larger than every byte budget used
 
 K1 == KA
 Low == NL - 1                  \* 0-based index of the slowest layer
@@ -77,12 +79,17 @@ OpsFault ==     \* deletion / corruption / change of length of the disk layer's 
   \cup {Get(k) : k \in Keys} \cup {GetL(KA, Low), Prom(KA, Low, 0), Rem(KA)}
   \cup {[op |-> "get_val", k |-> KA, ck |-> "v1"], [op |-> "batch_get", ks |-> <<KA, KB>>]}
 
+OpsFault2 ==    \* a file lost in ONE of two disk layers: the other one still has to answer (layout "mdd")
+  {PutL(KA, "v1", i) : i \in 1..2} \cup {[op |-> "delete", k |-> KA, layer |-> i] : i \in 1..2}
+  \cup {Get(KA), GetL(KA, 1), [op |-> "get_val", k |-> KA, ck |-> "v1"], [op |-> "batch_get", ks |-> <<KB, KA>>]}
+
 Ops == CASE Family = "core"  -> OpsCore
          [] Family = "layer" -> OpsLayer
          [] Family = "batch" -> OpsBatch
          [] Family = "ttl"   -> OpsTtl
          [] Family = "valid" -> OpsValid
          [] Family = "fault" -> OpsFault
+         [] Family = "fault2" -> OpsFault2
 
 \* symmetry breaking on names: key KB / value v2 is not used before KA / v1 has been
 Names(e, f) == IF f \in DOMAIN e THEN {e[f]} ELSE {}
@@ -90,7 +97,7 @@ Canon(e) ==
   LET usedK == UNION {Names(hist[i], "k") : i \in 1..Len(hist)}
       usedV == UNION {Names(hist[i], "v") : i \in 1..Len(hist)}
   IN /\ ("k" \in DOMAIN e /\ e.k = KB) => (KA \in usedK \/ Family \in {"batch", "fault"})
-     /\ ("v" \in DOMAIN e /\ e.v = "v2") => ("v1" \in usedV \/ Family \in {"batch", "layer", "ttl", "fault"})
+     /\ ("v" \in DOMAIN e /\ e.v = "v2") => ("v1" \in usedV \/ Family \in {"batch", "layer", "ttl", "fault"} \/ "v1" \notin Vals)
 
 MCInit == MInit /\ hist = <<>>
 MCNext ==
